@@ -794,8 +794,22 @@ class Ref:
         self.args = self.argvalues(eps) if args is None else args
         self.eps = eps
         self.cache = {}
+        self.maxmag = 0.0      # largest magnitude among the floating point intermediates seen so far: the scale of rounding noise after cancellation
         with numpy.errstate(all='ignore'):
             return [self.ev(o, {}) for o in self.prog['outs']]
+
+    _MOVES = ('insertaxis', 'transpose', 'ravel', 'unravel', 'cast', 'neg', 'real', 'guard', 'take', 'takediag', 'diagonalize')
+
+    def exactish(self, i):
+        """is node i a value without rounding history: a leaf, an integer, or data movement of one"""
+        n = self.nodes[i]
+        while True:
+            if n['t'][0] in ('int', 'bool') or n['op'] in ('zeros', 'ones', 'const', 'arg', 'idxarg', 'range', 'loopidx'):
+                return True
+            if n['op'] in self._MOVES and n['ch']:
+                n = self.nodes[n['ch'][0]]
+                continue
+            return False
 
     def ev(self, i, env):
         n = self.nodes[i]
@@ -813,6 +827,8 @@ class Ref:
         if v.dtype.kind in 'fc':
             if not numpy.isfinite(v).all() or (v.size and abs(v).max() > 1e8):
                 raise NonFinite(f'node {i} {n["op"]}')
+            if v.size:
+                self.maxmag = max(self.maxmag, float(abs(v).max()))
         elif v.dtype.kind == 'i':
             if v.size and abs(v).max() > 2 ** 40:
                 raise NonFinite(f'node {i} {n["op"]} int overflow')
@@ -873,7 +889,12 @@ class Ref:
             return numpy.power(abs(C(0)) + .5, C(1))
         if op == 'guard': return C(0)
         if op == 'abs': return numpy.abs(C(0))
-        if op == 'sign': return numpy.sign(C(0))
+        if op == 'sign':
+            a = C(0)
+            if a.dtype.kind in 'fc' and not self.exactish(n['ch'][0]) and (abs(a) <= 1e-12 * self.maxmag).any():
+                # a computed value that is zero up to rounding (cancellation, underflow): its sign is that of the rounding error
+                raise NonFinite('sign of a computed value that vanishes up to rounding')
+            return numpy.sign(a)
         if op == 'real': return numpy.real(C(0))
         if op == 'imag': return numpy.imag(C(0))
         if op in ('greater', 'less', 'equal'):
@@ -884,6 +905,9 @@ class Ref:
                 near = (abs(a - b) <= 1e-9 * (abs(a) + abs(b))) & ~((a == b) & (n['ch'][0] == n['ch'][1]))
                 if numpy.any(near & ((a != b) | (abs(a) + abs(b) > 0))):
                     raise NonFinite('comparison of floating point values that are equal up to rounding')
+                # the same after cancellation: a difference below the rounding noise of the largest intermediate (x-x+y against y, a sum that cancels against 0)
+                if n['ch'][0] != n['ch'][1] and not (self.exactish(n['ch'][0]) and self.exactish(n['ch'][1])) and numpy.any(abs(a - b) <= 1e-12 * self.maxmag):
+                    raise NonFinite('comparison of floating point values that are equal up to the rounding noise of the computation')
             return getattr(numpy, op)(a, b)
         if op == 'less': return numpy.less(C(0), C(1))
         if op == 'equal': return numpy.equal(C(0), C(1))
@@ -1177,3 +1201,20 @@ def features(prog):
     ops = [n['op'] for n in prog['nodes']]
     f = set(ops)
     return f
+
+
+# ---- structural predicates of the open C01 non-termination findings (known_findings.json), shared by the properties downstream of C01
+
+def known_loop_inflate_diag(prog):
+    ops = {n['op'] for n in prog['nodes']}
+    return 'diagonalize' in ops and bool(ops & {'inflate', 'take', 'concat', 'stack'})
+
+
+def known_loop_zero_size_diag_unravel(prog):
+    """a diagonal, an unravel and a takediag in a program with an axis of length zero (corpus/C01/loop-zero-size-diagonalize-unravel-takediag.json)"""
+    ops = {n['op'] for n in prog['nodes']}
+    return {'diagonalize', 'unravel', 'takediag'} <= ops and any(0 in n['t'][1] for n in prog['nodes'])
+
+
+def known_loop(prog):
+    return known_loop_inflate_diag(prog) or known_loop_zero_size_diag_unravel(prog)
